@@ -8,6 +8,7 @@ pub const ARENA_CAP: usize = 1 << 21;
 
 pub struct Arenas {
     pub inp: Arena,
+    pub inp_small: Arena,
     pub out: Arena,
     pub aux: [Arena; 3],
     pub dict: Arena,
@@ -15,7 +16,37 @@ pub struct Arenas {
 
 impl Arenas {
     pub fn new() -> Arenas {
-        Arenas { inp: Arena::new(ARENA_CAP), out: Arena::new(ARENA_CAP), aux: [Arena::new(1 << 17), Arena::new(1 << 17), Arena::new(1 << 17)], dict: Arena::new(1 << 18) }
+        Arenas { inp: Arena::new(ARENA_CAP), inp_small: Arena::new(1 << 16), out: Arena::new(ARENA_CAP), aux: [Arena::new(1 << 17), Arena::new(1 << 17), Arena::new(1 << 17)], dict: Arena::new(1 << 18) }
+    }
+}
+
+/// Input staging: the whole input is placed once (its end at a guard page); small chunks and
+/// chunks that are not at the end are copied to a second arena so that they too end at a guard.
+pub struct InStage {
+    full: *const u8,
+    len: usize,
+    right: bool,
+}
+
+pub const SMALL_CHUNK: usize = 4096;
+
+impl InStage {
+    pub fn new(ar: &Arenas, data: &[u8], right: bool) -> InStage {
+        let n = data.len().min(ar.inp.cap);
+        let full = ar.inp.put(&data[..n], right);
+        InStage { full, len: n, right }
+    }
+    pub fn len(&self) -> usize {
+        self.len
+    }
+    /// pointer to data[pos..pos+ic]
+    pub fn chunk(&self, ar: &Arenas, data: &[u8], pos: usize, ic: usize) -> *const u8 {
+        debug_assert!(pos + ic <= self.len);
+        if !self.right || pos + ic == self.len || ic > SMALL_CHUNK {
+            unsafe { self.full.add(pos) }
+        } else {
+            ar.inp_small.put_right(&data[pos..pos + ic])
+        }
     }
 }
 
@@ -394,6 +425,8 @@ pub fn run_inflate_with<B: InfBack>(data: &[u8], sched: &InfSchedule, o: &InfOpt
     }
     ar.out.fill(o.out_fill);
     let mut pos = 0usize; // next unconsumed input byte
+    let stage = InStage::new(ar, data, sched.in_right);
+    let data = &data[..stage.len()];
     let mut step_i = 0usize;
     let total_steps = sched.steps.len() * sched.cycles;
     let mut tail_stall = 0usize;
@@ -417,9 +450,9 @@ pub fn run_inflate_with<B: InfBack>(data: &[u8], sched: &InfSchedule, o: &InfOpt
                 (sched.tail_in, sched.tail_out, Z_NO_FLUSH)
             }
         };
-        let ic = ic.min(data.len() - pos).min(ar.inp.cap);
+        let ic = ic.min(data.len() - pos);
         let oc = oc.min(ar.out.cap - 64);
-        let ip = ar.inp.put(&data[pos..pos + ic], sched.in_right);
+        let ip = stage.chunk(ar, data, pos, ic);
         let op = if sched.out_right { ar.out.right(oc) } else { unsafe { ar.out.left(oc).add(64) } };
         // canaries around the output region (inside the arena)
         unsafe {
